@@ -532,7 +532,21 @@ func (g *schemaGenerator) generateType(t *schemas.Type, scope nameScope) (codege
 			return ncg, nil
 		}
 
+		g.addPointedNamedTypeImports(cg)
+
 		return cg, nil
+	}
+}
+
+// addPointedNamedTypeImports adds the imports of a named type (time.Time, netip.Addr, ...)
+// that was wrapped in a pointer because the schema type is nullable.
+func (g *schemaGenerator) addPointedNamedTypeImports(t codegen.Type) {
+	if pt, ok := t.(*codegen.PointerType); ok {
+		if ncg, ok := pt.Type.(codegen.NamedType); ok && ncg.Package != nil {
+			for _, imprt := range ncg.Package.Imports {
+				g.output.file.Package.AddImport(imprt.QualifiedName, "")
+			}
+		}
 	}
 }
 
@@ -973,6 +987,8 @@ func (g *schemaGenerator) generateTypeInline(t *schemas.Type, scope nameScope) (
 
 				return ncg, nil
 			}
+
+			g.addPointedNamedTypeImports(cg)
 
 			return cg, nil
 		}
